@@ -111,18 +111,18 @@ class P(Prop):
         (M, "TV.C05.sample_spec", "O2: interpolation.sample(track, t) = the specification sample when t in (tini, tfin], IndexError otherwise"),
         (M, "TV.C05.synchronize_spec", "O3: synchronize(t1, t2) leaves both tracks with exactly the same timestamps: the stamps of either track strictly inside the common time range, in chronological order, each track holding its own specification sample at each; none inside = both empty"),
         (M, "TV.C05.collection_resample", "O4: TrackCollection.resample = Track.resample on every track in order (returns iff every track's resampling returns)"),
+        (M, "TV.C05.collection_floordiv", "O5: collection // ref (fix ea8666e) returns, for every track in order, that track's own temporal resampling at ref's stamps (= track // ref): one observation per stamp of ref in the track's (tini, tfin], in ref's order, each the specification sample, feature table empty"),
     ]
     partial = []
     open_statements = [
         "IEEE rounding is outside the theorems (ordered field): float overshoot int(L/ds)*ds > L (repaired by the fix commits 6fb91a5 + 3031a33: bounded scan and abscissa clamped to L, both mirrored by the model and proved to be no-ops in exact arithmetic; their effect in floats is covered by the Float-model correspondence and the oracle), loss of the (1+1e-8) guard on epoch-scale stamps and the truncation int((t - int(t))*1000) of the millisecond field to m-1 for some whole-millisecond instants are only sampled by the transfer check (1 ms tolerance)",
         "spatial mode: the stamp of an output is readUnixTime of an interpolated, generally non-integral number of milliseconds; the model stamps with floor(1000 t) by definition (stampOf), no theorem beyond T3/T4 on t itself",
-        "TrackCollection // ref (TrackCollection.__floordiv__) calls Track.resample(ref) in the default SPATIAL mode and raises TypeError on every non-empty collection (finding collection-floordiv-spatial-mode; modelled as it is, see the `collFloordiv` example in Props/C05.lean): no theorem of temporal resampling applies to it",
     ]
     modelled = ("tracklib/algo/interpolation.py prepareTimeSampling (number / list / Track / other argument), __resampleTemporal, __resampleSpatial, "
                 "the ALGO_LINEAR branches of the dispatcher resample() (including that it leaves the feature table untouched), sample(), synchronize() "
                 "(common range with Python's max/min, argsort as a sort of values, the de-duplication loop as written); tracklib/core/track.py Track.resample "
                 "(`delta is None` -> npts/factor with the (1+1e-8) guard, SRID read, dispatcher call, reset of the feature table), Track.__floordiv__, __pow__, "
-                "__mul__ (number); tracklib/core/track_collection.py TrackCollection.resample and __floordiv__; ENUCoords.distance2DTo/distanceTo as sqrt parameters; "
+                "__mul__ (number); tracklib/core/track_collection.py TrackCollection.resample and __floordiv__ (temporal mode since the fix commit ea8666e); ENUCoords.distance2DTo/distanceTo as sqrt parameters; "
                 "ObsTime.toAbsTime/readUnixTime through the C03 model (stampOf)")
     trusted = ["C05: the Rat instantiation of the model runs on inputs whose leg lengths are exact square roots (else the Float instantiation only); "
                "the stamp of an output is the C03 model applied to floor(1000 t) (Model/Resample.lean stampOf)",
@@ -134,7 +134,7 @@ class P(Prop):
             "unsorted reference track, all instants outside the range, one instant repeated, the track itself as reference, its own stamps, a tuple, a list in spatial mode, "
             "delta together with npts/factor, a step >= the whole range); every entry point that delegates to linear resampling (Track.resample, interpolation.resample, "
             "track // ref, track ** n, track * k, interpolation.sample, synchronize of two tracks whose time ranges meet in every way incl. shared stamps and no common fix, "
-            "synchronize(t, t), TrackCollection.resample on 1..3 tracks; operators must leave their operand unchanged); plus a float stream (arbitrary "
+            "synchronize(t, t), TrackCollection.resample and collection // ref on 1..3 tracks; operators must leave their operand unchanged); plus a float stream (arbitrary "
             "coordinates, arbitrary ms), a history stream (abs_curv / ds / speed / heading computed or user features with those names, uid/base/no_data/zone set, "
             "copy, then in-place edits setX/setY/setZ/scale/translate/removeObs, then resample; model and oracle see the final geometry) and an error/edge stream (ds<=0, npts=0, other mode, duplicate stamps, empty track). "
             "A call that does not return within 1 s of CPU time is reported as raising TimeoutError. non-trivial = at least 3 fixes and at least 2 expected output observations")
@@ -300,22 +300,9 @@ class P(Prop):
             span = max((q[-1][3] - q[0][3]) / 1000.0 for q in [pts] + others)
         if "num" in d and span / d["num"] > 2000:      # the same step serves every track of the collection: keep the longest one affordable
             d = {"num": float(Fraction(span / 2000).limit_denominator(8)) + 0.125}
-        if c == 9 or not self.coll_floordiv_listed():
+        if c == 9:
             return self.mk_case(pre + "coll", pts, mode, d, feat=feat, via="coll", others=others)
         return self.mk_case(pre + "collfloordiv", pts, 2, {"track": self.rand_instants(rng, pts, g)}, feat=feat, via="collfloordiv", others=others)
-
-    def coll_floordiv_listed(self):
-        """`collection // ref` raises TypeError on every input (finding `collection-floordiv-spatial-mode`): the stream is
-        generated once known_findings.json lists the class (the engine excuses only listed classes)"""
-        if not hasattr(self, "_cfl"):
-            import json, os
-            try:
-                with open(os.path.join(os.path.dirname(os.path.dirname(os.path.dirname(os.path.abspath(__file__)))), "known_findings.json")) as fh:
-                    ents = json.load(fh).get("entries", [])
-                self._cfl = any(e.get("property") == "C05" and e.get("class") == "collection-floordiv-spatial-mode" and e.get("status") == "finding" for e in ents)
-            except Exception:
-                self._cfl = False
-        return self._cfl
 
     def rand_pre(self, rng, pts):
         """a history on the track object before resample(): cached / user features, in-place edits, bookkeeping fields"""
@@ -1225,11 +1212,6 @@ class P(Prop):
         return None
 
     def classify(self, case, impl_out, msg):
-        # `collection // ref`: TrackCollection.__floordiv__ calls t.resample(track) without mode=MODE_TEMPORAL, so the default
-        # spatial mode divides a length by a Track: TypeError for every non-empty collection of non-empty tracks
-        if (case.get("via") == "collfloordiv" and isinstance(impl_out, dict) and impl_out.get("err") == "err:type"
-                and case["pts"] and msg and msg.startswith("raised err:type")):
-            return "collection-floordiv-spatial-mode"
         return None
 
     # ------------------------------------------------------------------ shrinking / search
